@@ -410,6 +410,8 @@ def c017(ctx):
     rs, seen, kh, kbody, succ_states = st['rs'], st['seen'], st['kh'], st['kbody'], st['succ_states']
     ctx.touch(rs)
     setters = {s.bb for s in rs.calls(r'^rip_kernel::Session::set_seq$')}
+    # the local copy of the kernel seq: by name, or the u64 local that is written back through Session::set_seq
+    setq_locals = {rs.root_local(x.args[1]) for x in rs.calls(r'^rip_kernel::Session::set_seq$') if len(x.args) > 1}
     lenders = []
     for s in rs.sites():
         if s.callee.startswith('rip_kernel::Session::'):
@@ -425,7 +427,7 @@ def c017(ctx):
                 if pl is None or not rs.lty(pl['l']).startswith('&mut u64'):
                     continue
                 oo = rs.origin(c)
-                if oo[0] == 'local' and rs.lname(oo[1]) == 'seq' and rs.lty(oo[1]) == 'u64':
+                if oo[0] == 'local' and rs.lty(oo[1]) == 'u64' and (rs.lname(oo[1]) == 'seq' or oo[1] in setq_locals):
                     lenders.append(s)
     lenders = list({s.bb: s for s in lenders}.values())
     ctx.floor('C01.7', 'calls lending `&mut seq` in run_session', len(lenders), 4)
